@@ -177,7 +177,8 @@ Scenario make_scenario(const Case &c, Value<Char_T> &arr) {
         unsigned           others   = e.below(5);
         std::vector<Member> plan;
         for (unsigned k = 0; k < others; ++k) {
-            plan.push_back(gen_other(e, names[k]));
+            // (in the twins mode one of the other members is named by the empty string: a legal member name)
+            plan.push_back(gen_other(e, (c.twins != 0 && k == 3) ? "" : names[k]));
         }
         Member idm;
         idm.key  = "id";
